@@ -169,7 +169,10 @@ Proof. split; [exact div_u_on_instance_3d | exact div_u_on_instance_2d]. Qed.
 Print Assumptions C15_div_u_on_planar_instance.
 
 (* Scale-free accuracy: check also holds the basis-field values of every divergence row and the
-   row sum of every scalar-gradient row to a PURELY RELATIVE tolerance (no absolute floor), so
+   row sum of every scalar-gradient row to a PURELY RELATIVE tolerance (no absolute floor; a
+   scalar-gradient component is measured relative to its own terms plus the magnitude of the
+   expected force vector of ITS face, so a component whose exact value is 0 may carry rounding
+   noise of the size of the other components), so
    matrices with tiny entries (micrometre cells, tiny coupling coefficients) are held to the same
    relative accuracy as unit-scale ones. *)
 Theorem C15_relative_certificate :
@@ -180,7 +183,7 @@ Theorem C15_relative_certificate :
        <= tol * (rabs (nth c (i_drows I) []) (basis I m) + Qabs (div_target I c m)))
     /\ (forall q, (q < i_nd I * i_nf I)%nat ->
        Qabs (rdot (nth q (i_grows I) []) ones - grad_target I q)
-       <= tol * (rabs (nth q (i_grows I) []) ones + Qabs (grad_target I q))).
+       <= tol * (rabs (nth q (i_grows I) []) ones + Qabs (grad_target I q) + face_mag I q)).
 Proof. exact relative_certificate. Qed.
 Print Assumptions C15_relative_certificate.
 
